@@ -408,3 +408,8 @@ Definition wf_model (m : ModelP) : bool :=
   && (fvi || negb (nonempty (m_funcs m))
       || negb (existsb (fun vi => has_slash (vname vi)) (g_vinfo (m_graph m)))).
 
+
+(* entry point for a standalone AttributeProto *)
+Definition norm_attr_top (a : AttrP GraphP) : AttrP GraphP := norm_attr norm_graph empty_graph a.
+Definition wf_attr_top (a : AttrP GraphP) : bool := wf_attr true (wf_graph true []) a.
+Definition attr_eqb_top (a b : AttrP GraphP) : bool := attr_eqb (graph_eqb (S (attrv_depth gdepth (a_val a)))) a b.
